@@ -98,10 +98,11 @@ func c12Get(shape int, desc int) *c12Decl {
 	switch shape {
 	case 0: // flat
 		top.Opts = all
-	case 1: // nested groups with namespaces
+	case 1: // nested groups with namespaces; the innermost group repeats a field name of the parser's own group
 		top.Opts = basic[:2]
+		again := mk("S", "inner-s", "", decl.TString)
 		top.Groups = []*decl.Group{{Field: "G1", Name: "Group One", Namespace: "g1", Opts: basic[2:],
-			Groups: []*decl.Group{{Field: "G2", Name: "Group Two", Namespace: "g2", Opts: append(typed, extra...)}}}}
+			Groups: []*decl.Group{{Field: "G2", Name: "Group Two", Namespace: "g2", Opts: append(append(typed, extra...), again)}}}}
 	case 2: // command with a group
 		top.Opts = basic[:1]
 		top.Cmds = []*decl.Cmd{{Field: "Cmd", Name: "cmd", Opts: basic[1:], Groups: []*decl.Group{{Field: "CG", Name: "Cmd Group", Opts: append(typed, extra...)}}}}
